@@ -118,6 +118,20 @@ int main(int argc, char **argv) {
       auto c = canon_pc(*res.value(), gi.uids); if (!have) { ref = c; have = true; } else if (c != ref) o.fail("C01 decoded point multiset differs across methods (same per-attribute quantization): " + tag);
     }
   }
+  // point counts at and next to the limits where the sequential connectivity changes its index width (uint8 / uint16 / varint / uint32)
+  for (uint32_t n : {255u, 256u, 257u, 65535u, 65536u, 65537u, 2097151u, 2097152u, 2097153u}) { if (!thorough && n > 70000) continue;
+    Mesh m; m.set_num_points(n); GeometryAttribute ga; ga.Init(GeometryAttribute::POSITION, nullptr, 3, DT_UINT8, false, 3, 0); int id = m.AddAttribute(ga, true, n);
+    std::vector<uint8_t> z(3 * (size_t)n); for (size_t i = 0; i < z.size(); i++) z[i] = (uint8_t)((i / 3) % 7 + (i % 3)); m.attribute(id)->buffer()->Update(z.data(), z.size());
+    Mesh::Face f; f[0] = PointIndex(n - 1); f[1] = PointIndex(0); f[2] = PointIndex(n - 2); m.AddFace(f); f[0] = PointIndex(n / 2); f[1] = PointIndex(n - 1); f[2] = PointIndex(1); m.AddFace(f); f[0] = PointIndex(3); f[1] = PointIndex(2); f[2] = PointIndex(n - 3); m.AddFace(f);
+    std::vector<uint32_t> uids = {m.attribute(id)->unique_id()}; geos++;
+    for (int cc = 0; cc < 2; cc++) { Encoder e; e.SetEncodingMethod(MESH_SEQUENTIAL_ENCODING); e.SetSpeedOptions(5, 5); if (cc) e.options().SetGlobalBool("compress_connectivity", true);
+      EncoderBuffer b; encodes++; if (!e.EncodeMeshToBuffer(m, &b).ok()) { enc_failed++; continue; }
+      DecoderBuffer d; d.Init(b.data(), b.size()); Decoder dec; auto res = dec.DecodeMeshFromBuffer(&d); const std::string tag = "sequential mesh with " + U(n) + " points, 3 faces, compress_connectivity=" + S(cc);
+      if (!res.ok()) { if (cc) continue;   // (compressed connectivity: known finding D10 class, reported by h_seq)
+        o.fail(std::string("C01 encode ok but decode failed (") + res.status().error_msg() + "): " + tag); continue; }
+      if (res.value()->num_points() != n || res.value()->num_faces() != 3) { o.fail("C01 point / face count changed: " + tag); continue; }
+      bool same = true; for (FaceIndex fi(0); fi < 3 && same; ++fi) for (int j = 0; j < 3; j++) if (res.value()->face(fi)[j] != m.face(fi)[j]) same = false;
+      if (!same) o.fail("C01 faces changed (the sequential method keeps face and point order): " + tag); } }
   // many attributes: the Edgebreaker stream addresses attribute data with a signed 8-bit id and counts them in a uint8
   // (fix 29338a7: the encoder refuses more than 128 non-position attributes; before, 130..255 encoded but did not decode)
   for (int na : {2, 127, 128, 129, 130, 200}) {
